@@ -8,7 +8,7 @@ import pandas as pd
 from symx import Obligation, Violation
 
 NAN = "__NAN__"
-UNIVERSE = [1, 1.0, 2.5, "1", "a", 0, 0.0, -3, "2.5", "-3", np.nan, 10.0, "10"]
+UNIVERSE = [1, 1.0, 2.5, "1", "a", 0, 0.0, -3, "2.5", "-3", np.nan, 10.0, "10", 1234567.0, 0.1234567, 12345678]
 
 
 def expected_str(v):
